@@ -68,7 +68,9 @@ func (streamBytes) AsString() (string, error) {
 	return mixins.Bytes{TypeName: "bytes"}.AsString()
 }
 func (n streamBytes) AsBytes() ([]byte, error) {
-	return io.ReadAll(n)
+	// Read through a private view starting at offset zero, so that reading is
+	// repeatable and does not disturb (nor depend on) other readers' positions.
+	return io.ReadAll(&streamView{rs: n.ReadSeeker})
 }
 func (streamBytes) AsLink() (datamodel.Link, error) {
 	return mixins.Bytes{TypeName: "bytes"}.AsLink()
@@ -77,5 +79,42 @@ func (streamBytes) Prototype() datamodel.NodePrototype {
 	return Prototype__Bytes{}
 }
 func (n streamBytes) AsLargeBytes() (io.ReadSeeker, error) {
-	return n.ReadSeeker, nil
+	// LargeBytesNode requires a separate instance per call whose position is
+	// independent of every other instance.
+	return &streamView{rs: n.ReadSeeker}, nil
+}
+
+// streamView is an independent read position over a shared io.ReadSeeker:
+// it repositions the underlying reader before every read.
+type streamView struct {
+	rs  io.ReadSeeker
+	off int64
+}
+
+func (v *streamView) Read(p []byte) (int, error) {
+	if _, err := v.rs.Seek(v.off, io.SeekStart); err != nil {
+		return 0, err
+	}
+	n, err := v.rs.Read(p)
+	v.off += int64(n)
+	return n, err
+}
+
+func (v *streamView) Seek(offset int64, whence int) (int64, error) {
+	switch whence {
+	case io.SeekStart:
+	case io.SeekCurrent:
+		offset += v.off
+	default:
+		end, err := v.rs.Seek(offset, whence)
+		if err != nil {
+			return v.off, err
+		}
+		offset = end
+	}
+	if offset < 0 {
+		return v.off, io.ErrUnexpectedEOF
+	}
+	v.off = offset
+	return v.off, nil
 }
